@@ -1,6 +1,7 @@
 SPECIFICATION Spec
 CONSTANTS
   MaxReq = 3
+  MaxVerify = 3
   Weak = {}
 INVARIANTS HandOver StoredOnlyAfterM6 WrongCodeStoresNothing
 CHECK_DEADLOCK FALSE
